@@ -23,6 +23,7 @@ import (
 	"strconv"
 	"strings"
 	"sync"
+	"sync/atomic"
 	"time"
 
 	"net"
@@ -176,7 +177,21 @@ type sut struct {
 	env         map[int]*envelope
 
 	last  map[int64]saveReq // entity id -> the request that produced its current version (the stored payload)
+
+	// a get-or-create request parked inside DBV2.GetOrCreateMapping, between function entry and its eng.Do (Options.Now seam)
+	blockNext atomic.Bool
+	entered   chan struct{}
+	release   chan struct{}
+	lateRes   chan lateReply
+	lateM     int
+	lateK     int
+	parked    bool
 	flags map[string]bool
+}
+
+type lateReply struct {
+	r   tlmetadata.GetMappingResponse
+	err error
 }
 
 type envelope struct {
@@ -212,7 +227,13 @@ func (x *sut) open() {
 		panic(err)
 	}
 	x.db, err = metadata.OpenDB(x.dir+"/db", metadata.Options{MaxBudget: x.maxBudget, StepSec: x.step, BudgetBonus: x.bonus, GlobalBudget: x.globalBudget,
-		Now: func() time.Time { return time.Unix(x.now, 0) }}, bl)
+		Now: func() time.Time {
+			if x.blockNext.CompareAndSwap(true, false) { // the parked request waits here; it reads the clock when it is released
+				close(x.entered)
+				<-x.release
+			}
+			return time.Unix(x.now, 0)
+		}}, bl)
 	if err != nil {
 		panic(err)
 	}
@@ -220,6 +241,7 @@ func (x *sut) open() {
 
 // reopen: orderly restart (Close, OpenDB). Everything durable must survive; lastMappingIDToInsert starts from 0 again.
 func (x *sut) reopen() {
+	x.resume()
 	x.h.Op("reopen")
 	x.guard(func() {
 		if err := x.db.Close(); err != nil {
@@ -235,6 +257,11 @@ func (x *sut) reopen() {
 }
 
 func (x *sut) close() {
+	if x.parked { // never leave a goroutine inside the DB
+		x.parked = false
+		close(x.release)
+		<-x.lateRes
+	}
 	_ = x.db.Close()
 	_ = os.RemoveAll(x.dir)
 }
@@ -473,48 +500,105 @@ func (x *sut) gc(m, k int) {
 	x.h.Op("gc %d %d %d", m, k, x.now)
 	x.guard(func() {
 		r, err := x.db.GetOrCreateMapping(x.ctx, metricStr(m), keyStr(k))
-		if err != nil {
-			x.h.Obs("err %s", classify(err))
-			return
-		}
-		key := keyStr(k)
-		switch {
-		case r.IsCreated():
-			c, _ := r.AsCreated()
-			x.h.Obs("created %d", c.Id)
-			x.h.Stat("gc.created", 1)
-			if id, ok := x.shadow[key]; ok {
-				x.h.Viol("mapping-changed", "key %s was mapped to %d but get-or-create created %d", key, id, c.Id)
-			}
-			if c.Id <= 0 {
-				x.h.Viol("mapping-nonpositive", "created id %d", c.Id)
-			}
-			if x.everID[c.Id] {
-				x.h.Viol("mapping-id-reused", "id %d was handed out before (key %s)", c.Id, key)
-				x.flags["reuse"] = true
-			}
-			x.flood(m, c.Id)
-			x.shadow[key] = c.Id
-			x.everID[c.Id] = true
-			x.lastCreated = c.Id
-		case r.IsGetMappingResponse():
-			g, _ := r.AsGetMappingResponse()
-			x.h.Obs("got %d", g.Id)
-			x.h.Stat("gc.got", 1)
-			if id, ok := x.shadow[key]; !ok || id != g.Id {
-				x.h.Viol("mapping-changed", "key %s expected %d (present=%v) but got %d", key, id, ok, g.Id)
-			}
-		case r.IsFloodLimitError():
-			x.h.Obs("flood")
-			x.h.Stat("gc.flood", 1)
-			x.flags["flood"] = true
-			if _, ok := x.shadow[key]; ok {
-				x.h.Viol("mapping-changed", "key %s is mapped but get-or-create answered flood limit", key)
-			}
-		default:
-			x.h.Obs("other")
-		}
+		x.observeGc(m, k, r, err)
 	})
+}
+
+// park: a get-or-create request enters DBV2.GetOrCreateMapping and is held before its eng.Do (it has not touched the
+// database yet); everything the harness does until `resume` is applied BEFORE it
+func (x *sut) park(m, k int) {
+	if x.parked {
+		return
+	}
+	x.h.Op("park %d %d", m, k)
+	x.entered, x.release, x.lateRes = make(chan struct{}), make(chan struct{}), make(chan lateReply, 1)
+	x.lateM, x.lateK = m, k
+	x.blockNext.Store(true)
+	db := x.db
+	go func() {
+		r, err := db.GetOrCreateMapping(x.ctx, metricStr(m), keyStr(k))
+		x.lateRes <- lateReply{r, err}
+	}()
+	select {
+	case <-x.entered:
+		x.parked = true
+		x.h.Obs("parked")
+		x.h.Stat("late.park", 1)
+		if x.lastCreated > 0 && int64(x.lastCreated) <= x.globalBudget {
+			x.flags["parked-inside-global-budget"] = true
+		}
+	case <-time.After(20 * time.Second):
+		x.h.Obs("hang")
+	}
+}
+
+// resume: the parked request proceeds now; it is judged like any other request applied at this point
+func (x *sut) resume() {
+	if !x.parked {
+		return
+	}
+	x.h.Op("resume %d", x.now)
+	x.parked = false
+	exhausted := !(x.lastCreated > 0 && int64(x.lastCreated) <= x.globalBudget)
+	if x.flags["parked-inside-global-budget"] && exhausted {
+		if e := x.env[x.lateM]; e != nil && e.e < 1 && e.k == x.stepIdx() {
+			x.h.Stat("late.resume.critical", 1) // entered inside the global budget, applied after it and the metric's budget are spent
+			x.flags["late-critical"] = true
+		}
+	}
+	delete(x.flags, "parked-inside-global-budget")
+	close(x.release)
+	select {
+	case lr := <-x.lateRes:
+		x.guard(func() { x.observeGc(x.lateM, x.lateK, lr.r, lr.err) })
+	case <-time.After(20 * time.Second):
+		x.h.Obs("hang")
+	}
+}
+
+// observeGc prints the reply of a get-or-create request and evaluates the C19 oracles at the point where it was applied
+func (x *sut) observeGc(m, k int, r tlmetadata.GetMappingResponse, err error) {
+	if err != nil {
+		x.h.Obs("err %s", classify(err))
+		return
+	}
+	key := keyStr(k)
+	switch {
+	case r.IsCreated():
+		c, _ := r.AsCreated()
+		x.h.Obs("created %d", c.Id)
+		x.h.Stat("gc.created", 1)
+		if id, ok := x.shadow[key]; ok {
+			x.h.Viol("mapping-changed", "key %s was mapped to %d but get-or-create created %d", key, id, c.Id)
+		}
+		if c.Id <= 0 {
+			x.h.Viol("mapping-nonpositive", "created id %d", c.Id)
+		}
+		if x.everID[c.Id] {
+			x.h.Viol("mapping-id-reused", "id %d was handed out before (key %s)", c.Id, key)
+			x.flags["reuse"] = true
+		}
+		x.flood(m, c.Id)
+		x.shadow[key] = c.Id
+		x.everID[c.Id] = true
+		x.lastCreated = c.Id
+	case r.IsGetMappingResponse():
+		g, _ := r.AsGetMappingResponse()
+		x.h.Obs("got %d", g.Id)
+		x.h.Stat("gc.got", 1)
+		if id, ok := x.shadow[key]; !ok || id != g.Id {
+			x.h.Viol("mapping-changed", "key %s expected %d (present=%v) but got %d", key, id, ok, g.Id)
+		}
+	case r.IsFloodLimitError():
+		x.h.Obs("flood")
+		x.h.Stat("gc.flood", 1)
+		x.flags["flood"] = true
+		if _, ok := x.shadow[key]; ok {
+			x.h.Viol("mapping-changed", "key %s is mapped but get-or-create answered flood limit", key)
+		}
+	default:
+		x.h.Obs("other")
+	}
 }
 
 // flood: the token-bucket envelope the property allows (see checks/C19.py). Called for every creation.
@@ -1564,6 +1648,12 @@ func historyC19(h *verifx.H, r *verifx.Rng) {
 		} else if r.Chance(1, 30) {
 			x.reopen()
 			x.dump()
+		} else if r.Chance(1, 20) {
+			if x.parked {
+				x.resume()
+			} else {
+				x.park(r.Intn(nmetrics), r.Intn(nkeys))
+			}
 		} else {
 			mappingOp(x, r, nkeys, nmetrics)
 		}
@@ -1571,6 +1661,7 @@ func historyC19(h *verifx.H, r *verifx.Rng) {
 			x.dump()
 		}
 	}
+	x.resume()
 	x.newmaps(0, 1000)
 	x.dump()
 	if x.flags["flood"] && x.flags["limited"] {
@@ -1599,6 +1690,76 @@ func bigResetC19(h *verifx.H, r *verifx.Rng) {
 		h.NonTrivial("flood-limit-hit")
 	}
 	h.Stat("case.big-reset", 1)
+}
+
+// lateC19: the schedule around the exhaustion of the global budget. Mappings are created until the last created id is near the
+// global budget, one request is parked inside GetOrCreateMapping (before its eng.Do), other requests then run — exhausting the
+// global budget and, usually, the metric's own budget — and only then the parked request is applied.
+func lateC19(h *verifx.H, r *verifx.Rng) {
+	maxBudget := int64(r.Range(1, 3))
+	step := []uint32{60, 3600}[r.Intn(2)]
+	bonus := int64(r.Intn(2))
+	global := int64(r.Range(1, 6))
+	x := openSut(h, maxBudget, step, bonus, global, int64(r.Range(1_000_000, 2_000_000)))
+	defer x.close()
+	m := r.Range(1, 2)
+	key := 0
+	fresh := func() int { key++; return key }
+	rounds := r.Range(1, 3)
+	for round := 0; round < rounds; round++ {
+		// approach the boundary: stop 0-2 ids before the global budget is used up (or run past it sometimes)
+		target := global - int64(r.Range(0, 2)) + int64(r.Intn(2))*int64(r.Intn(3))
+		for n := 0; int64(x.lastCreated) < target && n < 12; n++ {
+			x.gc(m, fresh())
+		}
+		pm := m
+		if r.Chance(1, 5) {
+			pm = 3 - m
+		}
+		pk := fresh()
+		if r.Chance(1, 8) && key > 2 {
+			pk = r.Range(1, key-1) // an existing key: the parked request only reads
+		}
+		x.park(pm, pk)
+		// how many creations it takes to leave the global budget and then spend the metric's own budget; vary around that
+		need := int(global) - int(x.lastCreated) + 1 + int(maxBudget)
+		if need < 1 {
+			need = 1
+		}
+		n := need + r.Range(-1, 2)
+		if r.Chance(1, 4) {
+			n = r.Range(1, int(maxBudget)+3)
+		}
+		for ; n > 0; n-- {
+			if r.Chance(1, 12) {
+				x.tick(r)
+			}
+			switch r.Pick(20, 2, 1, 1) {
+			case 0:
+				x.gc(m, fresh())
+			case 1:
+				x.gc(3-m, fresh())
+			case 2:
+				x.reset(m, []int64{0, 1, maxBudget + 2}[r.Intn(3)])
+			case 3:
+				x.del([]int32{int32(r.Range(1, key))})
+			}
+		}
+		x.resume()
+		for n := r.Range(0, 2); n > 0; n-- {
+			x.gc(pm, fresh())
+		}
+		if r.Chance(1, 3) {
+			x.reopen()
+		}
+	}
+	x.dump()
+	if x.flags["late-critical"] {
+		h.NonTrivial("late-request-applied-after-budgets-spent")
+	}
+	if x.flags["flood"] && x.flags["limited"] {
+		h.NonTrivial("flood-limit-hit")
+	}
 }
 
 func pureC19(h *verifx.H, r *verifx.Rng) {
@@ -1736,6 +1897,13 @@ func scriptCase(h *verifx.H) {
 			x.byid(int32(atoi(t[1])))
 		case t[0] == "newmaps" && len(t) == 3:
 			x.newmaps(int32(atoi(t[1])), int32(atoi(t[2])))
+		case t[0] == "park" && len(t) == 3:
+			x.park(int(atoi(t[1])), int(atoi(t[2])))
+		case t[0] == "resume":
+			if len(t) == 2 {
+				x.now = atoi(t[1])
+			}
+			x.resume()
 		case t[0] == "reopen":
 			x.reopen()
 		case t[0] == "dump":
@@ -1765,6 +1933,8 @@ func main() {
 				bigResetC19(h, r)
 			} else if i%6 == 5 {
 				pureC19(h, r)
+			} else if i%6 == 2 {
+				lateC19(h, r)
 			} else {
 				historyC19(h, r)
 			}
